@@ -94,8 +94,11 @@ def track_cases():
     out = []
     for opcode in ("ExtInstImport", "Extension", "Nop"):
         for rid in (True, False):
-            for name, ops in (("none", []), ("glsl", [S("GLSL.std.450")]), ("opencl", [S("OpenCL.std")]), ("other", [S("NonSemantic.DebugPrintf")]),
-                              ("idref", [("enum", "Operand::IdRef", [("id", "X")])])):
+            # the statement names exactly two set names: other names, also ones sharing a prefix with them or extending them, are unknown sets
+            near = [("other:" + n_, [S(n_)]) for n_ in ("", "GLSL.std.45", "GLSL.std.4500", "GLSL.std.", "glsl.std.450", "OpenCL.std.100", "OpenCL.", "OpenCL.DebugInfo.100",
+                                                        "OpenCL.st", " OpenCL.std")]
+            for name, ops in [("none", []), ("glsl", [S("GLSL.std.450")]), ("opencl", [S("OpenCL.std")]), ("other", [S("NonSemantic.DebugPrintf")]),
+                              ("idref", [("enum", "Operand::IdRef", [("id", "X")])])] + (near if (opcode == "ExtInstImport" and rid) else []):
                 want = []
                 if opcode == "ExtInstImport" and rid and name in SETS:
                     want = [(IDS[0], SETS[name][1])]
